@@ -539,8 +539,14 @@ func c18ParserCalls() []c18Call {
 			u, err := parse.Unit(strings.NewReader("p(1). q(X) :- p(X)."))
 			return show(fmt.Sprint(u.Clauses), err)
 		}},
-		{"Unit(lexer error)", func() string { u, err := parse.Unit(strings.NewReader("p(1). q(X) :- p(X) ^^ .")); return show(fmt.Sprint(u.Clauses), err) }},
-		{"Unit(parser error)", func() string { u, err := parse.Unit(strings.NewReader("p(1). q(X) :- :- p(X).")); return show(fmt.Sprint(u.Clauses), err) }},
+		{"Unit(lexer error)", func() string {
+			u, err := parse.Unit(strings.NewReader("p(1). q(X) :- p(X) ^^ ."))
+			return show(fmt.Sprint(u.Clauses), err)
+		}},
+		{"Unit(parser error)", func() string {
+			u, err := parse.Unit(strings.NewReader("p(1). q(X) :- :- p(X)."))
+			return show(fmt.Sprint(u.Clauses), err)
+		}},
 		{"Clause(valid)", func() string { c, err := parse.Clause("r(X,Y) :- e(X,Z), r(Z,Y)."); return show(c.String(), err) }},
 		{"Term(bad)", func() string { t, err := parse.Term("foo(("); return show(t, err) }},
 		{"PredicateName(x)", func() string { n, err := parse.PredicateName("some_pred"); return show(n, err) }},
